@@ -115,6 +115,32 @@ def canon_impl_form(f):
                      str(len(ps))] + [esc(p) for p in ps] + [str(len(ops))] + ops)
 
 
+def property_view(canon):
+    """What the property speaks about, read off a canonical text: the class (exactly one of the four),
+    and for instruction lines the mnemonic and the operands.  Comment texts, label names and directive
+    parameters are compared model-vs-implementation only."""
+    if not canon.startswith("K "):
+        return ("error", canon.split(" ")[0])
+    f = canon.split(" ")
+    mn, label, dn, comment, npar = f[1], f[2], f[3], f[4], int(f[5])
+    rest = f[6 + npar:]
+    anomalies = [x for x in rest[1 + int(rest[0]):]]
+    classes = []
+    if mn != "~":
+        classes.append("instruction")
+    if label != "~":
+        classes.append("label")
+    if dn != "~":
+        classes.append("directive")
+    if not classes and comment != "~":
+        classes.append("comment")
+    if len(classes) != 1:
+        return ("classes", tuple(classes))
+    if classes[0] == "instruction":
+        return ("instruction", mn, tuple(rest[1:1 + int(rest[0])])) + tuple(anomalies)
+    return (classes[0],) + tuple(anomalies)
+
+
 def impl_line(parser, line, line_number=None):
     """canonical text of the real parser's result on one line (exceptions -> E / A / X:<type>)"""
     try:
